@@ -565,6 +565,13 @@ func (i *Interpreter) evaluateLt(left, right interface{}) (interface{}, error) {
 		}
 	}
 
+	// Strings compare lexicographically, as in the compiled engine
+	if leftStr, ok := left.(string); ok {
+		if rightStr, ok := right.(string); ok {
+			return leftStr < rightStr, nil
+		}
+	}
+
 	return nil, fmt.Errorf("cannot compare %T and %T", left, right)
 }
 
@@ -584,6 +591,13 @@ func (i *Interpreter) evaluateLe(left, right interface{}) (interface{}, error) {
 	if leftFloat, ok := coercedLeft.(float64); ok {
 		if rightFloat, ok := coercedRight.(float64); ok {
 			return leftFloat <= rightFloat, nil
+		}
+	}
+
+	// Strings compare lexicographically, as in the compiled engine
+	if leftStr, ok := left.(string); ok {
+		if rightStr, ok := right.(string); ok {
+			return leftStr <= rightStr, nil
 		}
 	}
 
@@ -609,6 +623,13 @@ func (i *Interpreter) evaluateGt(left, right interface{}) (interface{}, error) {
 		}
 	}
 
+	// Strings compare lexicographically, as in the compiled engine
+	if leftStr, ok := left.(string); ok {
+		if rightStr, ok := right.(string); ok {
+			return leftStr > rightStr, nil
+		}
+	}
+
 	return nil, fmt.Errorf("cannot compare %T and %T", left, right)
 }
 
@@ -628,6 +649,13 @@ func (i *Interpreter) evaluateGe(left, right interface{}) (interface{}, error) {
 	if leftFloat, ok := coercedLeft.(float64); ok {
 		if rightFloat, ok := coercedRight.(float64); ok {
 			return leftFloat >= rightFloat, nil
+		}
+	}
+
+	// Strings compare lexicographically, as in the compiled engine
+	if leftStr, ok := left.(string); ok {
+		if rightStr, ok := right.(string); ok {
+			return leftStr >= rightStr, nil
 		}
 	}
 
